@@ -119,7 +119,7 @@ func c17Check(env *core.Env, cc core.Case) core.Verdict {
 		v.Counts["entries_checked"] = 7
 		return v
 
-	case "generate", "generate-stdin", "generate-include", "generate-include-pairs", "generate-include-affix", "generate-except", "generate-cmdline", "generate-define", "generate-define-include", "generate-beside-define", "generate-beside-define-include":
+	case "generate", "generate-stdin", "generate-include", "generate-include-pairs", "generate-include-twice", "generate-include-affix", "generate-except", "generate-cmdline", "generate-define", "generate-define-include", "generate-beside-define", "generate-beside-define-include":
 		long := "q" + longBody(c.Len-1)
 		if c.Len == 1 {
 			long = "q"
@@ -147,6 +147,21 @@ func c17Check(env *core.Env, cc core.Case) core.Verdict {
 				}
 			}
 			accept = append(accept, "zulu26")
+		case "generate-include-twice":
+			// the same file is included three times: rewritten, through include-except, and plainly; what the first
+			// reader did with the text is no business of the later ones
+			tree["regex-assembly/include/big.ra"] = c.join(lines)
+			tree["regex-assembly/exclude/small.ra"] = "nothinglisted\n"
+			program = "zulu26\n##!> include big -- 1 ONE\n##!=>\n##!> include-except big small\n##!=>\n##!> include big\n"
+			var all []string
+			for _, a := range accept {
+				first := a
+				if strings.HasSuffix(a, "1") {
+					first = strings.TrimSuffix(a, "1") + "ONE"
+				}
+				all = append(all, first+a+a)
+			}
+			accept = all
 		case "generate-include-affix":
 			// the include file has its own prefix and suffix, so its text is copied into a local block
 			tree["regex-assembly/include/big.ra"] = "##!^ pre\n##!$ post\n" + c.join(lines)
@@ -513,7 +528,7 @@ func init() {
 					lens = append(lens, 65000+rng.Intn(1200), 131072-2+rng.Intn(5), 600000+rng.Intn(500000))
 				}
 			}
-			for _, cmd := range []string{"generate", "generate-stdin", "generate-include", "generate-include-pairs", "generate-include-affix", "generate-except", "generate-cmdline", "generate-define", "generate-define-include", "generate-beside-define", "generate-beside-define-include", "generate-long-exclusion", "generate-include-many", "format", "format-check", "renumber", "renumber-all", "copyright", "update"} {
+			for _, cmd := range []string{"generate", "generate-stdin", "generate-include", "generate-include-pairs", "generate-include-twice", "generate-include-affix", "generate-except", "generate-cmdline", "generate-define", "generate-define-include", "generate-beside-define", "generate-beside-define-include", "generate-long-exclusion", "generate-include-many", "format", "format-check", "renumber", "renumber-all", "copyright", "update"} {
 				for _, l := range lens {
 					for _, pos := range []string{"first", "middle", "last"} {
 						for _, nf := range []bool{false, true} {
@@ -521,6 +536,9 @@ func init() {
 								// buffer-size multiples at the end of a rewritten file stay in the quick tier
 							} else if !env.Thorough() && (l == 4096 || l == 8192 || l == 65537 || l == 262144 || (l == 1048576 && pos != "middle")) {
 								continue // the quick tier keeps the boundary lengths and one position for the 1 MiB line
+							}
+							if cmd == "generate-include-twice" && l > 140000 {
+								continue // three copies of the line in one expression: the boundary lengths are what matters here
 							}
 							if cmd == "generate-cmdline" && l > 70000 {
 								continue // the evasion pattern between every two characters makes this quadratic work for the engine, not a truncation question
